@@ -136,7 +136,7 @@ def scc_replay(res):
 
 
 # ------------------------------------------------------------------ C13
-def reach_task(n, fold, what, u=None):
+def reach_task(n, fold, what, u=None, bound=None):
     """get_reachable_set_from / get_reversed_graph / get_subgraph / clone on all graphs with node presence,
     all node subsets (which may name non-nodes). Run WITHOUT functional reduction by default."""
     import pyModelChecking.graph as G
@@ -150,8 +150,10 @@ def reach_task(n, fold, what, u=None):
         start_lemma_log(SEED)
     # code-derived bound: every node enters the work list at most once and the start set holds nodes only, so the loop body runs
     # at most n times; the guard of an (n+1)-th iteration is an unwinding assertion in the query
-    vm = VM(GRAPH_MODS, max_unroll=n, check_unroll=False)
-    vm.bounds = {'DiGraph.get_reachable_set_from': n}
+    # (a differently structured loop - say one work-list step per edge - needs more: when only the unwinding assertion fails,
+    # the task is run again with the bound n*n+2n+1, see the end of this function)
+    vm = VM(GRAPH_MODS, max_unroll=bound or n, check_unroll=False)
+    vm.bounds = {'DiGraph.get_reachable_set_from': bound or n}
     ctx, fr = harness_ctx(vm)
     e = ematrix(n, {})
     g = ctx.call(G.DiGraph, [], {'V': list(u), 'E': GSeq([(e[i][j], (u[i], u[j])) for i in range(n) for j in range(n)])})
@@ -245,8 +247,11 @@ def reach_task(n, fold, what, u=None):
         want = [x2[i] for i in range(n)] + [b_and(x2[i], x2[j], e2[i][j]) for i in range(n) for j in range(n)]
     else:
         want = [e2[i][j] for i in range(n) for j in range(n)]
+    if what == 'reach' and bound is None and n <= (4 if fold else 3) and d.violated(unwind_guard(vm)) == 'sat':
+        d.close()
+        return reach_task(n, fold, what, u, bound=n * n + 2 * n + 1)
     r = d.differ(impl, want, bad)
-    res = dict(kind=what, n=n, fold=fold, univ=u, out=out, verdict=r, encode_s=round(t1 - t0, 2), shared=bool(shared), exc=exc_kinds(fr),
+    res = dict(kind=what, n=n, fold=fold, univ=u, out=out, loop_bound=bound or n, verdict=r, encode_s=round(t1 - t0, 2), shared=bool(shared), exc=exc_kinds(fr),
                loops=loops, encoded=encoded, unwind_open=len(vm.unwind))
     if r == 'sat':
         res['model'] = d.differ_model(impl, want, bad)
